@@ -4,7 +4,8 @@ C12 — OutputAsync honours its mode (wait / cancel / start) for every arrival p
 Model: EdzedModel/OutputAsync.lean (control tasks `_ctrl_wait/_ctrl_cancel/_ctrl_start`, the output task
 with its result events and shielded guard sleep, `stop`/`stop_async`).  A script is a list of `Op`s:
 `put t pre batch x` (arrival of data `x` at instant `t`, before/after the block's own timers of that instant,
-possibly in one batch with the previous put), `stop t pre`, `finish` (let everything run to completion).
+possibly in one batch with the previous put), `stop t pre` (the deadline `t + stopTimeout` is armed),
+`finish` (let everything run to completion).
 `run c ops` is the state after the script, `(run c ops).log` the time-stamped log (newest first) of
 arrival markers `put j`, output changes `out n`, coroutine `start/done/cancelled j` and result events
 `succ/err/canc j`, where a job `j = ⟨seq, data⟩` is the `seq`-th accepted put with its original data.
@@ -62,16 +63,53 @@ theorem exactly_one_result (c : Cfg) (ops : List Op) (t : Nat) (j : Job)
   simp only [final] at *
   omega
 
-/--
-Full clause: "at stop pending work is completed within stop_timeout".  The model has no clock for
-stop_timeout (its expiry cancels `stop_async`, which is explored by the correspondence only), so the
-statement is proved under the hypothesis built into the model that the timeout does not expire:
-after `stop` every accepted put, queued or running, still gets its single result.
--/
-theorem stop_completes_pending_work_partial (c : Cfg) (ops : List Op) (ts : Nat) (pre : Bool) (t : Nat)
+/-- at stop all pending work is completed -- every put accepted before the stop, queued or running, and
+    stop_data get exactly one result each -- whether or not stop_timeout expires on the way: the model
+    carries the deadline `stop time + stop_timeout` (`expire`), and an expiry only cancels the coroutines
+    running in that instant (they are reported cancelled); see `timeout_cancels_only_at_expiry`,
+    `cancel_only_by_newer` and the `example`s at the end for what happens to each item -/
+theorem stop_completes_pending_work (c : Cfg) (ops : List Op) (ts : Nat) (pre : Bool) (t : Nat)
     (j : Job) (h : (t, Ev.put j) ∈ (final c (ops ++ [.stop ts pre])).log) :
     (resJobs (final c (ops ++ [.stop ts pre])).log).count j = 1 :=
   exactly_one_result c _ t j h
+
+/-- the kind of each result matches what the run did: success (error) is reported exactly when the
+    coroutine of a non-raising (raising) script came to its end, in that instant, and such a run was never
+    cancelled; cancel is reported only for jobs whose coroutine never came to its end (cancelled while
+    running, or discarded before it started) -/
+theorem result_matches_run (c : Cfg) (ops : List Op) (t : Nat) (j : Job) :
+    ((t, Ev.succ j) ∈ (run c ops).log →
+      j.data.fail = false ∧ (t, Ev.done j) ∈ (run c ops).log ∧ ∀ t', (t', Ev.cancelled j) ∉ (run c ops).log) ∧
+    ((t, Ev.err j) ∈ (run c ops).log →
+      j.data.fail = true ∧ (t, Ev.done j) ∈ (run c ops).log ∧ ∀ t', (t', Ev.cancelled j) ∉ (run c ops).log) ∧
+    ((t, Ev.canc j) ∈ (run c ops).log → ∀ t', (t', Ev.done j) ∉ (run c ops).log) := by
+  have hk := run_kindOK c ops
+  have hone : (resJobs (run c ops).log).count j ≤ 1 := by
+    have := at_most_one_result_ever c ops j; omega
+  refine ⟨fun h => ?_, fun h => ?_, fun h t' hd => ?_⟩
+  · have h1 := hk t _ h
+    refine ⟨h1.1, h1.2, fun t' hc => ?_⟩
+    have h2 : (t', Ev.canc j) ∈ (run c ops).log := hk t' _ hc
+    have := two_results h h2 (by simp) rfl rfl
+    omega
+  · have h1 := hk t _ h
+    refine ⟨h1.1, h1.2, fun t' hc => ?_⟩
+    have h2 : (t', Ev.canc j) ∈ (run c ops).log := hk t' _ hc
+    have := two_results h h2 (by simp) rfl rfl
+    omega
+  · rcases (hk t' _ hd : _ ∨ _) with h2 | h2
+    · have := two_results h h2 (by simp) rfl rfl
+      omega
+    · have := two_results h h2 (by simp) rfl rfl
+      omega
+
+/-- a coroutine that is cancelled is reported cancelled in the same instant, and one that comes to its end
+    is reported as success or error in the same instant -/
+theorem run_end_is_reported (c : Cfg) (ops : List Op) (t : Nat) (j : Job) :
+    ((t, Ev.cancelled j) ∈ (run c ops).log → (t, Ev.canc j) ∈ (run c ops).log) ∧
+    ((t, Ev.done j) ∈ (run c ops).log →
+      (t, Ev.succ j) ∈ (run c ops).log ∨ (t, Ev.err j) ∈ (run c ops).log) :=
+  ⟨fun h => run_kindOK c ops t _ h, fun h => run_kindOK c ops t _ h⟩
 
 /-- wait mode: the runs start in arrival order (chronologically: started jobs, then the queued ones,
     are exactly the accepted puts in order), one at a time -/
@@ -82,45 +120,89 @@ theorem wait_fifo_one_at_a_time (c : Cfg) (ops : List Op) (h : c.mode = Mode.wai
   have := run_fifo c ops h
   rw [this]; simp
 
-/-- wait and start mode never cancel anything -/
-theorem only_cancel_mode_cancels (c : Cfg) (ops : List Op) (h : c.mode ≠ Mode.cancel) (t : Nat) (j : Job) :
-    (t, Ev.cancelled j) ∉ (run c ops).log ∧ (t, Ev.canc j) ∉ (run c ops).log := by
+/-- the stop_timeout clock: an expiry (`timeout` marker) happens only after `stop()`, no earlier than
+    stop time + stop_timeout, and in one instant only -/
+theorem timeout_not_before_deadline (c : Cfg) (ops : List Op) (t : Nat)
+    (h : (t, Ev.timeout) ∈ (run c ops).log) :
+    (∃ ts, (run c ops).stopAt = some ts ∧ ts + c.stopTimeout ≤ t) ∧ (run c ops).stopped = true ∧
+    ∀ t2, (t2, Ev.timeout) ∈ (run c ops).log → t2 = t := by
+  obtain ⟨_, h2, h3, h4⟩ := run_tInv c ops
+  obtain ⟨⟨ts, hts, hle⟩, _, _⟩ := h2 t h
+  exact ⟨⟨ts, hts, hle⟩, h4 (by simp [hts]), fun t2 h' => h3 t2 t h' h⟩
+
+/-- work that fits into stop_timeout is not touched by it: the timeout expires only while a run is
+    still active -- once everything is complete, an expiry at `t` is followed by an output decrement at
+    `t` or later.  (Contrapositive: if the output has gone down for the last time before stop time +
+    stop_timeout, nothing is cancelled by the timeout and all the statements above hold in their
+    timeout-free form.) -/
+theorem timeout_only_while_work_pending (c : Cfg) (ops : List Op) (t : Nat)
+    (h : (t, Ev.timeout) ∈ (final c ops).log) :
+    ∃ t' n, t ≤ t' ∧ (t', Ev.out n) ∈ (final c ops).log := by
+  obtain ⟨_, h2, _, _⟩ := run_tInv c (ops ++ [.finish])
+  rcases (h2 t h).2.2 with hx | ⟨hr, _⟩
+  · exact hx
+  · exact absurd (returns_to_zero c ops).2.1 hr
+
+/-- wait and start mode cancel nothing, except in the instant in which stop_timeout expires
+    (`timeout` marker of the model at the same time stamp) -/
+theorem timeout_cancels_only_at_expiry (c : Cfg) (ops : List Op) (h : c.mode ≠ Mode.cancel) (t : Nat) (j : Job)
+    (hc : (t, Ev.cancelled j) ∈ (run c ops).log ∨ (t, Ev.canc j) ∈ (run c ops).log) :
+    (t, Ev.timeout) ∈ (run c ops).log := by
   have := run_noCancel c ops h
-  exact ⟨fun hm => by have := this t _ hm; simp [evCancel] at this,
-         fun hm => by have := this t _ hm; simp [evCancel] at this⟩
+  rcases hc with hc | hc
+  · rcases this t _ hc with h1 | h1
+    · simp [evCancel] at h1
+    · exact h1
+  · rcases this t _ hc with h1 | h1
+    · simp [evCancel] at h1
+    · exact h1
+
+/-- while stop_timeout has not expired, wait and start mode never cancel anything -/
+theorem only_cancel_mode_cancels (c : Cfg) (ops : List Op) (h : c.mode ≠ Mode.cancel)
+    (hto : ∀ t, (t, Ev.timeout) ∉ (run c ops).log) (t : Nat) (j : Job) :
+    (t, Ev.cancelled j) ∉ (run c ops).log ∧ (t, Ev.canc j) ∉ (run c ops).log :=
+  ⟨fun hm => hto t (timeout_cancels_only_at_expiry c ops h t j (Or.inl hm)),
+   fun hm => hto t (timeout_cancels_only_at_expiry c ops h t j (Or.inr hm))⟩
 
 /-- a run is cancelled, and a queued put is discarded (reported cancelled), only because a newer put
-    had arrived by then -/
+    had arrived by then -- or because stop_timeout expired in that very instant -/
 theorem cancel_only_by_newer (c : Cfg) (ops : List Op) (t : Nat) (j : Job)
     (h : (t, Ev.cancelled j) ∈ (run c ops).log ∨ (t, Ev.canc j) ∈ (run c ops).log) :
-    ∃ k t', j.seq < k.seq ∧ t' ≤ t ∧ (t', Ev.put k) ∈ (run c ops).log := by
+    (∃ k t', j.seq < k.seq ∧ t' ≤ t ∧ (t', Ev.put k) ∈ (run c ops).log) ∨
+    (t, Ev.timeout) ∈ (run c ops).log := by
   have hc := (run_cancInv c ops).2.2
   rcases h with h | h
   · exact hc t _ j h rfl
   · exact hc t _ j h rfl
 
-/-- the most recent put is never reported cancelled (at every point of every script) -/
+/-- the most recent put is never reported cancelled (at every point of every script), unless
+    stop_timeout expired in that instant -/
 theorem latest_never_cancelled (c : Cfg) (ops : List Op) (t : Nat) (j : Job)
-    (h : (t, Ev.canc j) ∈ (run c ops).log) : j.seq + 1 < (run c ops).nacc := by
-  obtain ⟨k, t', hlt, _, hk⟩ := cancel_only_by_newer c ops t j (Or.inr h)
-  have := (run_uniq c ops).1 k (mem_putJobs hk)
-  omega
+    (h : (t, Ev.canc j) ∈ (run c ops).log) :
+    j.seq + 1 < (run c ops).nacc ∨ (t, Ev.timeout) ∈ (run c ops).log := by
+  rcases cancel_only_by_newer c ops t j (Or.inr h) with ⟨k, t', hlt, _, hk⟩ | hto
+  · have := (run_uniq c ops).1 k (mem_putJobs hk)
+    left; omega
+  · exact Or.inr hto
 
-/-- the most recent put (incl. stop_data) always runs to completion: its result is success or error -/
+/-- the most recent put (incl. stop_data) always runs to completion: its result is success or error --
+    unless stop_timeout expired while its coroutine was running (then it is reported cancelled in that instant) -/
 theorem latest_completes (c : Cfg) (ops : List Op) (t : Nat) (j : Job)
     (h : (t, Ev.put j) ∈ (final c ops).log) (hlast : j.seq + 1 = (final c ops).nacc) :
-    ∃ t', (t', Ev.succ j) ∈ (final c ops).log ∨ (t', Ev.err j) ∈ (final c ops).log := by
+    (∃ t', (t', Ev.succ j) ∈ (final c ops).log ∨ (t', Ev.err j) ∈ (final c ops).log) ∨
+    (∃ t', (t', Ev.canc j) ∈ (final c ops).log ∧ (t', Ev.timeout) ∈ (final c ops).log) := by
   have h1 := exactly_one_result c ops t j h
   have hmem : j ∈ resJobs (final c ops).log := List.count_pos_iff.mp (by omega)
   simp only [resJobs, List.mem_filterMap] at hmem
   obtain ⟨⟨t', e⟩, hm, he⟩ := hmem
   cases e with
-  | succ k => simp [evRes] at he; subst he; exact ⟨t', Or.inl hm⟩
-  | err k => simp [evRes] at he; subst he; exact ⟨t', Or.inr hm⟩
+  | succ k => simp [evRes] at he; subst he; exact Or.inl ⟨t', Or.inl hm⟩
+  | err k => simp [evRes] at he; subst he; exact Or.inl ⟨t', Or.inr hm⟩
   | canc k =>
     simp [evRes] at he; subst he
-    have := latest_never_cancelled c (ops ++ [.finish]) t' k hm
-    simp only [final] at hlast; omega
+    rcases latest_never_cancelled c (ops ++ [.finish]) t' k hm with h2 | h2
+    · simp only [final] at hlast; omega
+    · exact Or.inr ⟨t', hm, h2⟩
   | _ => simp [evRes] at he
 
 /-- start mode: every put starts its own run in the instant of its arrival; the only exception is the
@@ -165,7 +247,7 @@ theorem stop_data_last (c : Cfg) (ops : List Op) (d : Item)
 /-- cancel mode, guard 2: run 0 is cancelled by put 1, put 1 is discarded for put 2 (which arrives during
     the guard sleep), put 2 completes; three results, output back to 0 -/
 example :
-    let c : Cfg := ⟨.cancel, 2, none⟩
+    let c : Cfg := ⟨.cancel, 2, none, 1000⟩
     let ops := [Op.put 0 true false ⟨1, 5, false⟩, .put 2 true false ⟨2, 5, false⟩,
                 .put 3 true false ⟨3, 1, false⟩, .stop 30 true]
     (2, Ev.cancelled ⟨0, ⟨1, 5, false⟩⟩) ∈ (final c ops).log ∧
@@ -176,7 +258,7 @@ example :
 
 /-- wait mode with stop_data: queued work and then stop_data are processed after the stop -/
 example :
-    let c : Cfg := ⟨.wait, 1, some ⟨99, 2, false⟩⟩
+    let c : Cfg := ⟨.wait, 1, some ⟨99, 2, false⟩, 1000⟩
     let ops := [Op.put 0 true false ⟨1, 3, false⟩, .put 1 false false ⟨2, 3, true⟩, .stop 2 true]
     (final c ops).stopped = true ∧
     (7, Ev.err ⟨1, ⟨2, 3, true⟩⟩) ∈ (final c ops).log ∧
@@ -185,9 +267,24 @@ example :
 
 /-- start mode: two overlapping runs, stop_data after both -/
 example :
-    let c : Cfg := ⟨.start, 0, some ⟨99, 2, false⟩⟩
+    let c : Cfg := ⟨.start, 0, some ⟨99, 2, false⟩, 1000⟩
     let ops := [Op.put 0 true false ⟨1, 3, false⟩, .put 1 true false ⟨2, 2, false⟩, .stop 2 true]
     (1, Ev.out 2) ∈ (final c ops).log ∧ (3, Ev.start ⟨2, ⟨99, 2, false⟩⟩) ∈ (final c ops).log := by
   decide +kernel
+
+/-- stop_timeout expiry (wait mode, stop at 2, stop_timeout 4, deadline 6): the run in progress (put 2,
+    started at 3) is reported cancelled at 6, but the work goes on after the deadline -- put 3 starts at 6
+    and succeeds at 9, stop_data runs from 9 to 11; every put still has exactly one result.
+    (This is what the code does: `_output_coro` swallows the cancellation of `stop_async`.) -/
+example :
+    let c : Cfg := ⟨.wait, 0, some ⟨99, 2, false⟩, 4⟩
+    let ops := [Op.put 0 true false ⟨1, 3, false⟩, .put 1 true false ⟨2, 3, false⟩,
+                .put 1 true true ⟨3, 3, false⟩, .stop 2 true]
+    (6, Ev.timeout) ∈ (final c ops).log ∧
+    (6, Ev.canc ⟨1, ⟨2, 3, false⟩⟩) ∈ (final c ops).log ∧
+    (6, Ev.start ⟨2, ⟨3, 3, false⟩⟩) ∈ (final c ops).log ∧
+    (9, Ev.succ ⟨2, ⟨3, 3, false⟩⟩) ∈ (final c ops).log ∧
+    (11, Ev.succ ⟨3, ⟨99, 2, false⟩⟩) ∈ (final c ops).log ∧
+    (final c ops).output = 0 := by decide +kernel
 
 end Edzed.OutputAsync
